@@ -1266,6 +1266,22 @@ def _c13_simplify(trace):
         t = dict(trace)
         t["init"] = {"file": nf}
         return t
+    # long tracks: cut the tail first (halves, quarters, ...); per-event candidates only once the track is short
+    for ti, evs in enumerate(tracks):
+        if len(evs) > 60:
+            for frac in (2, 4, 8, 16, 64):
+                keep = evs[: max(2, len(evs) // frac)]
+                # do not leave a note open at the cut
+                open_ = {}
+                for e in keep:
+                    if e["k"] == "on":
+                        open_[(e["ch"], e["pitch"])] = e
+                    elif e["k"] == "off":
+                        open_.pop((e["ch"], e["pitch"]), None)
+                keep = [e for e in keep if not (e["k"] == "on" and open_.get((e["ch"], e["pitch"])) is e)]
+                yield with_file(dict(f, tracks=tracks[:ti] + [keep] + tracks[ti + 1:]))
+    if sum(len(evs) for evs in tracks) > 1500:
+        return
     # drop a note (on+off pair) or a single non-note event
     for ti, evs in enumerate(tracks):
         for j, e in enumerate(evs):
